@@ -656,4 +656,13 @@ def check_c16(run, srckind, files, mode, sel, pre, append, before, after, code, 
     if mode == "chain" and back is not None:
         bl = (bt["files"] if bt and bt["ok"] else None) if srckind == "cassette" else (bd["files"] if bd and bd["ok"] else None)
         if bl is None or [ckey(f) for f in bl] != [ckey(f) for f in want]:
-            run.violate("C16: converting back does not yield the original file set", inp, [ckey(f)[0] for f in want], None if bl is None else [ckey(f)[0] for f in bl])
+            # E1: the tool's cassette reader stops at a file with empty data, so a chain through a cassette loses it and what follows
+            e1 = any(f["data"] == "" for f in want)
+            pred = []
+            for f in want:
+                if f["data"] == "":
+                    break
+                pred.append(ckey(f))
+            known = "E1" if (e1 and bl is not None and [ckey(f) for f in bl] == pred) else None
+            run.violate("C16: converting back does not yield the original file set", inp, [ckey(f)[0] for f in want], None if bl is None else [ckey(f)[0] for f in bl],
+                        known_id=known)
